@@ -71,6 +71,7 @@ func (e *Engine) translate(u *Unit) {
 	x.curPos = fn.Pos()
 	if u.FType != nil {
 		x.selfFn = intLit(int64(e.fnID(fn)))
+		x.unitFType = u.FType
 	}
 	var args []Val
 	for _, p := range fn.Params {
